@@ -27,7 +27,8 @@ Thorough == TIER = "thorough"
 (*                         sample values                                   *)
 (***************************************************************************)
 Txt(n) == [i \in 1..n |-> 97 + (i % 26)]                  \* printable text of length n
-Bin(n) == [i \in 1..n |-> (i * 37) % 256]                 \* arbitrary bytes of length n
+Bin(n) == [i \in 1..n |-> (i * 37) % 256]
+Utf8Key == <<102, 195, 164, 114, 103, 195, 182>>          \* "färgö": well-formed two-byte UTF-8 sequences                 \* arbitrary bytes of length n
 
 SampleVals(id) ==
   LET kd == PropKind(id) IN
@@ -61,7 +62,8 @@ PropSeqs(ctx) ==
                  f \in UNION {Perms(S) : S \in {S \in small : Cardinality(S) >= 2}}}
       vals == UNION {{<<PV(id, x)>> : x \in SampleVals(id)} : id \in A}
       zeros == {<<PV(id, ZeroWire(id))>> : id \in {x \in A \ (ZeroForbidden \cup {8, 22}) : PropKind(x) # "pair"}}
-      ups == {<<PV(38, <<Txt(1), Txt(2)>>), PV(38, <<Txt(2), <<>>>>), PV(38, <<Txt(1), Txt(2)>>)>>}
+      ups == {<<PV(38, <<Txt(1), Txt(2)>>), PV(38, <<Txt(2), <<>>>>), PV(38, <<Txt(1), Txt(2)>>)>>,
+              <<PV(38, <<Utf8Key, Txt(1)>>)>>, <<PV(38, <<Utf8Key, Utf8Key>>), PV(38, <<Txt(1), Txt(1)>>)>>}
              \cup (IF n > 1 THEN {LET o == CHOOSE x \in A : x # 38 IN
                                   <<PV(38, <<Txt(1), Txt(1)>>), PV(o, SampleVal(o)), PV(38, <<Txt(2), Txt(2)>>)>>}
                    ELSE {})
@@ -254,6 +256,9 @@ MutantCases ==
              \cup UNION {{[kind |-> "prefix", p |-> p, at |-> n] :
                        n \in LET len == Len(Encode(p)) IN IF len <= 300 THEN 0..(len - 1) ELSE (0..40) \cup ((len - 5)..(len - 1))} : p \in base}
              \cup {[kind |-> "rlfifth", p |-> one, b5 |-> b5] : b5 \in {0, 1, 127, 128, 255}}
+             \* a property that MQTT defines but not for this packet, with a well-formed value (verdict "either")
+             \cup {[kind |-> "foreign", p |-> p, pos |-> pos, id |-> id] :
+                  p \in SweepBase(t), pos \in 1..2, id \in DefinedIds \ Allowed(t)}
              \* a property repeated (protocol error, verdict "either"): same value, zero / empty value, both orders
              \cup UNION {{[kind |-> "dupprop", p |-> p, pos |-> pos, zero |-> z, first |-> fs] :
                             pos \in 1..NProps(p), z \in BOOLEAN, fs \in BOOLEAN} : p \in {q \in base : NProps(q) \in 1..2}}
@@ -278,6 +283,7 @@ MutantFrame(m) ==
                 val == DecVBI(f, x.s, Len(f), Len(f), FALSE).val
                 body == SubSeq(f, d.hdr + 1, x.s - 1) \o Pad5(val, m.b5) \o SubSeq(f, x.e + 1, Len(f))
             IN <<f[1]>> \o VBI(Len(body)) \o body
+  ELSE IF m.kind = "foreign" THEN Encode(WithProp(m.p, m.pos, PV(m.id, SampleVal(m.id))))
   ELSE IF m.kind = "dupprop" THEN
        LET pr == m.p.v["Props"][m.pos]
            other == IF m.zero THEN PV(pr[1], IF PropKind(pr[1]) = "pair" THEN <<pr[2][1], <<>>>> ELSE ZeroWire(pr[1])) ELSE pr
@@ -285,7 +291,7 @@ MutantFrame(m) ==
   ELSE IF m.kind = "prefix" THEN SubSeq(f, 1, m.at)
   ELSE <<f[1], 255, 255, 255, 255, m.b5>> \o SubSeq(f, d.hdr + 1, Len(f))
 
-MutantValid(m) == IF m.kind = "undef" THEN m.pos <= Len(m.p.v["Props"]) + 1 ELSE TRUE
+MutantValid(m) == IF m.kind \in {"undef", "foreign"} THEN m.pos <= Len(m.p.v["Props"]) + 1 ELSE TRUE
 
 (* EncVal for an undefined identifier: the value bytes are irrelevant, the strict reader stops at the identifier *)
 MutantTheorems(m) ==
